@@ -756,6 +756,10 @@ def run_shard(spec_, res):
             res.count("generated_unusable")
             continue
         run_edits(res, f"generated:{'ref-encoded' if k % 2 else 'rv-written'}#{idx}", raw, c.describe(), rng, tier)
+    # MetaModules that came from a file answer to `u_<label>` for exactly the controller whose label chunk says so (unlabelled
+    # controllers in front of labelled ones included)
+    from .. import aliasprobe
+    aliasprobe.run(res, "C04", random.Random(seed * 7 + spec_["shard"]), 12 if tier == "quick" else 120)
     # the same bytes handed over in every kind of stream and under odd file names: what they denote does not depend on that
     import shutil
     import tempfile
